@@ -2,13 +2,14 @@
    The composition theorems of C07_join.v carry hypotheses on internal values (no saturating cast reached, segment
    corners within +-2^29).  Here they are discharged from a bound on the coordinates and the stroke width:
 
-       range_ok V w  :=  0 <= w  /\  0 <= V  /\  V + 6 * w + 8 <= 1280
+       range_ok V w  :=  0 <= w  /\  0 <= V  /\  V + 6 * w + 8 <= 8191
 
    with all vertices within +-V before and after the move.  (Every parallel of Line::extents starts within 6w+7 of the
    line - Proofs/ThicklineOverflow.v parallels_states_fit by the line builder -, so the four thick-line edges of a join
-   lie within +-1280 = 1024 + 2 * 128, the range for which the overflow builder's C08_join_point_bound - Proofs/Overflow.v -
-   bounds the USED join point by 13 108 481: the rounded intersection when nearly_colinear_has_error is false, the edge end
-   otherwise.)  E.g. coordinates within +-1024 with stroke widths up to 41, or 800 x 480 with stroke widths up to 78.
+   lie within +-8191, and Proofs/JoinPointBound.v - the argument of the overflow builder's C08_join_point_bound with a larger
+   constant - bounds the USED join point by 536 748 040 < 2^29: the rounded intersection when nearly_colinear_has_error is
+   false, the edge end otherwise.)  E.g. coordinates within +-4096 with stroke widths up to 681, +-7000 with widths up to 197;
+   beyond about +-2^13 the i32 arithmetic of the code (not the unbounded model) is the limit anyway.
    Statements only; proofs in Proofs/JoinRange.v. *)
 From EG Require Import Base.Prelude Model.Geometry Model.Style Model.Line Model.Thickline Model.Join Model.JoinTri.
 From EG Require Import Proofs.Join Proofs.JoinTri Proofs.JoinRange.
@@ -47,10 +48,10 @@ Theorem C07_join_triangle_bbox_translate_range : forall V d t w al, range_ok V w
   jt_styled_bounding_box (tr_tri d t) w al = option_map (fun bb => translate_rect bb d) (jt_styled_bounding_box t w al).
 Proof. exact jt_styled_bounding_box_tr_range. Qed.
 
-(* non-vacuity: the range contains +-1024 with stroke 41 and 800 x 480 with stroke 78, and the triangle of finding l moved across both
+(* non-vacuity: the range contains +-4096 with stroke 681 and +-7000 with stroke 197, and the triangle of finding l moved across both
    axes is inside it *)
 Example C07_join_range_nonvacuous :
-  range_ok 1024 41 /\ range_ok 800 78 /\
+  range_ok 4096 681 /\ range_ok 7000 197 /\
   tri_within 239 (P 0 0, P 3 1, P 3 9) /\ tri_within 239 (tr_tri (P 13 (-11)) (P 0 0, P 3 1, P 3 9)) /\
   option_map (@length (point * Z)) (jt_pixels (P 0 0, P 3 1, P 3 9) 4 Style.Center (Some 2)) = Some 85%nat.
 Proof.
